@@ -284,7 +284,7 @@ def run_project(root: Path, target="target.py", *, follow=1, excluded_imports=No
                   _excluded_imports=excluded_imports, _excluded_names=excluded_names)
     out = {"raised": None, "stage": "analyse", "results": None, "resolutions": [], "modules": None}
     try:
-        with rt.capture_stderr() as buf:
+        with rt.capture_stderr() as buf, rt.time_limit(30):
             try:
                 file_ir, import_irs, stats = parse_and_analyse_file()
                 out["stage"] = "generate"
